@@ -543,6 +543,9 @@ pub fn project(world: &FcWorld, g: &ModuleGraph) -> Value {
               let dangling: Vec<String> = orig.as_ref().map(|o| a.unresolved.iter().filter(|n| o.top_level.contains(*n)).cloned().collect()).unwrap_or_default();
               v["dangling"] = json!(dangling);
               v["erasure"] = json!(a.erasure);
+              if let Some(sig) = subject_sig(&url, &fc.source) {
+                v["sig"] = json!(sig);
+              }
               // relative specifiers must resolve to modules of the graph
               let mut bad = vec![];
               for d in fc.dependencies.values() {
@@ -578,6 +581,77 @@ pub fn project(world: &FcWorld, g: &ModuleGraph) -> Value {
     })
     .collect();
   json!({"mods": mods, "pkgs": pkgs})
+}
+
+/// Parameter list of the declaration called `subject` / `Subject` (function, method, constructor or arrow const) in
+/// `text`: one token per parameter {form, o (optional flag), t (type text without white space)}.
+pub fn subject_sig(url: &str, text: &str) -> Option<Vec<Value>> {
+  use deno_ast::SourceRanged;
+  use deno_ast::SourceRangedForSpanned;
+  let spec = ModuleSpecifier::parse(url).ok()?;
+  let parsed = deno_ast::parse_module(deno_ast::ParseParams {
+    specifier: spec.clone(),
+    text: text.into(),
+    media_type: MediaType::from_specifier(&spec),
+    capture_tokens: false,
+    scope_analysis: false,
+    maybe_syntax: None,
+  })
+  .ok()?;
+  let info = parsed.text_info_lazy();
+  let ty = |t: &Option<Box<TsTypeAnn>>| -> String {
+    match t {
+      Some(t) => t.type_ann.range().text_fast(info).chars().filter(|c| !c.is_whitespace()).collect(),
+      None => "-".to_string(),
+    }
+  };
+  let tok = |p: &Pat| -> Value {
+    match p {
+      Pat::Ident(i) => json!({"form": "ident", "o": i.id.optional, "t": ty(&i.type_ann)}),
+      Pat::Rest(r) => json!({"form": "rest", "o": false, "t": ty(&r.type_ann)}),
+      Pat::Object(o) => json!({"form": "object", "o": o.optional, "t": ty(&o.type_ann)}),
+      Pat::Array(a) => json!({"form": "array", "o": a.optional, "t": ty(&a.type_ann)}),
+      Pat::Assign(a) => match &*a.left {
+        Pat::Ident(i) => json!({"form": "assign", "o": i.id.optional, "t": ty(&i.type_ann)}),
+        _ => json!({"form": "assign", "o": false, "t": "?"}),
+      },
+      _ => json!({"form": "other", "o": false, "t": "?"}),
+    }
+  };
+  let program = parsed.program();
+  let Program::Module(module) = &*program else { return None };
+  for item in &module.body {
+    let ModuleItem::ModuleDecl(ModuleDecl::ExportDecl(e)) = item else { continue };
+    match &e.decl {
+      Decl::Fn(f) if &*f.ident.sym == "subject" => return Some(f.function.params.iter().map(|p| tok(&p.pat)).collect()),
+      Decl::Class(c) if &*c.ident.sym == "Subject" => {
+        for m in &c.class.body {
+          match m {
+            ClassMember::Method(m) if matches!(&m.key, PropName::Ident(i) if &*i.sym == "subject") => {
+              return Some(m.function.params.iter().map(|p| tok(&p.pat)).collect());
+            }
+            ClassMember::Constructor(k) => {
+              return Some(k.params.iter().map(|p| match p { ParamOrTsParamProp::Param(p) => tok(&p.pat), _ => json!({"form": "paramprop", "o": false, "t": "?"}) }).collect());
+            }
+            _ => {}
+          }
+        }
+      }
+      Decl::Var(v) => {
+        for d in &v.decls {
+          if let Pat::Ident(i) = &d.name
+            && &*i.id.sym == "subject"
+            && let Some(init) = &d.init
+            && let Expr::Arrow(a) = &**init
+          {
+            return Some(a.params.iter().map(tok).collect());
+          }
+        }
+      }
+      _ => {}
+    }
+  }
+  None
 }
 
 /// The source map decodes, and every mapped token that is an identifier in the emitted text maps to the same
@@ -898,6 +972,29 @@ pub fn render_shape(shape: &Value) -> FcWorld {
   let prelude = "function helper(): number { return Math.random(); }\nfunction helper2(): { a: number } { return { a: 1 }; }\n";
   let mut other_files: Vec<(String, String)> = vec![];
   let decl = match s("fam").as_str() {
+    "params" => {
+      let ps: Vec<String> = shape["ps"].as_array().map(|a| a.iter().enumerate().map(|(i, k)| {
+        let n = format!("p{}", i + 1);
+        match k.as_str().unwrap_or("") {
+          "req" => format!("{n}: string"),
+          "opt" => format!("{n}?: string"),
+          "def" => format!("{n}: string = \"x\""),
+          "defAny" => format!("{n}: any = 1"),
+          "defInfer" => format!("{n} = 1"),
+          "rest" => format!("...{n}: string[]"),
+          "obj" => "{ a }: Rec".to_string(),
+          _ => n,
+        }
+      }).collect()).unwrap_or_default();
+      let ps = ps.join(", ");
+      let d = match s("ctx").as_str() {
+        "fn" => format!("export function subject({ps}): void {{}}\n"),
+        "method" => format!("export class Subject {{\n  subject({ps}): void {{}}\n}}\n"),
+        "ctor" => format!("export class Subject {{\n  constructor({ps}) {{}}\n}}\n"),
+        _ => format!("export const subject = ({ps}): void => {{}};\n"),
+      };
+      format!("type Rec = {{ a: number }};\n{d}")
+    }
     "fn" => {
       let (asy, is_gen) = (b("async"), b("gen"));
       let ret = if s("ret") == "ann" {
